@@ -4,7 +4,8 @@
    {ev:"build",  entries:[{pkg, kws}], text, parsed:[{pkg, kws}]}  PackageList.build(..) and its package entries
                                                                    (pkg = str() of the atom)
    {ev:"expand", text, sg:[{spec, kws}], refused, out}             PackageList(text).expand(suggest).text
-   {ev:"withkw", text, kws, out}                                   entries[0].with_keywords(kws): raw + eol      *)
+   {ev:"withkw", text, kws, out}                                   entries[0].with_keywords(kws): raw + eol
+   every event carries raised: "" or the name of the exception the call ended with               *)
 EXTENDS PkgList, TraceLib
 VARIABLE l
 
@@ -46,9 +47,15 @@ JudgeWithKw(e) ==
           \* with_keywords always rewrites a package line (expand() only calls it when the keywords change)
           ELSE IF IsPkgLine(L) THEN RewriteFails(L, os[1], e.kws) ELSE LineFails(L, os[1], <<>>)
 
-Judge(e) == CASE e.ev = "parse" -> JudgeParse(e) [] e.ev = "build" -> JudgeBuild(e)
-              [] e.ev = "expand" -> JudgeExpand(e) [] e.ev = "withkw" -> JudgeWithKw(e)
-              [] OTHER -> {"UnknownEvent"}
+Verdict(e) == CASE e.ev = "parse" -> JudgeParse(e) [] e.ev = "build" -> JudgeBuild(e)
+                [] e.ev = "expand" -> JudgeExpand(e) [] e.ev = "withkw" -> JudgeWithKw(e)
+                [] OTHER -> {"UnknownEvent"}
+\* e.raised: name of an exception the call ended with (other than the documented refusal of expand()).  On an input of
+\* the domain that is a failure of the code, judged like any other; the domain is still checked first.
+Judge(e) == IF e.raised = "" THEN Verdict(e)
+            ELSE IF "OutsideDomain" \in Verdict([e EXCEPT !.raised = ""]) THEN {"OutsideDomain"}
+            ELSE {CASE e.ev = "parse" -> "Parse_Raised" [] e.ev = "build" -> "Build_Raised"
+                    [] e.ev = "expand" -> "Expand_Raised" [] OTHER -> "WithKw_Raised"}
 TraceInit == l = 0
 TraceNext == /\ l < Len(Tr)
              /\ l' = l + 1
